@@ -24,7 +24,7 @@ LEVEL_TEXT = ("Multi-file, irregular frame layouts with a time-dependent sheared
 LEVEL_NOTE = "Negation and the interpolation arithmetic are sign-symmetric in IEEE arithmetic, but increments accumulate in a different order in the two runs (float32 fields): tolerance 1e-5 cells relative to O(1) positions is used for float32 storage, 1e-9 for float64 storage."
 RULE = ("case = (frame layout, file partition, start/stop positions, release table, mode, scheme). Non-trivial: at least two release times and a frame hand-over inside the run; "
         "distinct by parameters.")
-MANDATORY = ["release_rows_outside_the_window", "duration_not_a_whole_number_of_steps", "split_output", "particle_variable_files_compared", "release_time_between_steps", "records_compared", "multi_file", "several_release_times", "continuous", "discrete", "scheme_EF", "scheme_RK2", "scheme_RK4", "start_between_frames",
+MANDATORY = ["single_release_time_several_rows", "release_rows_outside_the_window", "duration_not_a_whole_number_of_steps", "split_output", "particle_variable_files_compared", "release_time_between_steps", "records_compared", "multi_file", "several_release_times", "continuous", "discrete", "scheme_EF", "scheme_RK2", "scheme_RK4", "start_between_frames",
              "clock_readings_checked", "release_times_checked"]
 ASSUMPTIONS = ["frames on the model time grid; release times sorted in simulation order"]
 TIMEOUT = {"quick": 900, "thorough": 3400}
@@ -69,13 +69,16 @@ def build(case: dict[str, Any]):
     else:
         freq = 0
         rel_steps = sorted({0} | {int(s) for s in rng.integers(0, ns, size=int(rng.integers(1, 4)))})
+    single = bool(case["idx"] % 6 == 4)
+    if single:
+        rel_steps = [0]  # one release time only, several differing rows: they enter in file order in both runs
     rows = []
     rid = 0
     for s in rel_steps:
         # discrete tables may state a time between two model steps (one time per step; released at the step before, in
         # simulation order, in both runs)
         frac = float(rng.choice([0.0, 0.0, 0.5, 0.25])) if (not cont and s + 1 < ns) else 0.0
-        for _ in range(int(rng.integers(1, 4))):
+        for _ in range(3 if single else int(rng.integers(1, 4))):
             rid += 1
             rows.append(dict(step=s, frac=frac, X=float(np.round(rng.uniform(6, imax - 7), 3)), Y=float(np.round(rng.uniform(5, jmax - 6), 3)), Z=float(np.round(rng.uniform(0, 80), 2)), rid=rid))
     outside = bool(not cont and case["idx"] % 4 == 1)
@@ -86,7 +89,7 @@ def build(case: dict[str, Any]):
             rows.append(dict(step=s_, frac=0.0, X=9.5, Y=7.5, Z=5.0, rid=rid))
     extra = dt // 2 if (case["idx"] % 5 == 2 and E > P[0]) else 0  # |stop - start| not a whole number of steps: both runs take floor(.) steps
     return dict(dt=dt, P=P, files=files, S=S, E=E, ns=ns, imax=imax, jmax=jmax, N=N, dx=dx, pattern=pattern, amp=amp, prof=prof, store=store, scheme=scheme,
-                cont=cont, freq=freq, rows=rows, numrec=int(rng.choice([0, 2, 3])), outside=outside, extra=extra)
+                cont=cont, freq=freq, rows=rows, numrec=int(rng.choice([0, 2, 3])), outside=outside, extra=extra, single=single)
 
 
 def scenarios(b: dict[str, Any]):
@@ -141,6 +144,7 @@ def run_case(case: dict[str, Any], wd: Path) -> dict[str, Any]:
     sit["start_between_frames"] = int(b["S"] not in b["P"])
     sit["release_time_between_steps"] = int(any(r.get("frac") for r in b["rows"]))
     sit["release_rows_outside_the_window"] = int(bool(b.get("outside")))
+    sit["single_release_time_several_rows"] = int(bool(b.get("single")))
     sit["duration_not_a_whole_number_of_steps"] = int(bool(b.get("extra")))
     key = str(desc)
     if not fres.ok:
